@@ -119,9 +119,11 @@ class RawReader(io.RawIOBase):
         return True
 
     def seekable(self):
-        return True
+        return not self.plan.get('noseek')     # a pipe / socket: sequential reading must not need tell() or seek()
 
     def seek(self, offset, whence=0):
+        if self.plan.get('noseek'):
+            raise io.UnsupportedOperation('simulated pipe: not seekable')
         if whence == 0:
             self.pos = offset
         elif whence == 1:
